@@ -275,7 +275,7 @@ _GOTO = re.compile(r'^goto -> bb(\d+)$')
 _SWITCH = re.compile(r'^switchInt\((.*)\) -> \[(.*)\]$', re.S)
 _DROP = re.compile(r'^drop\((.*)\) -> \[return: bb(\d+), unwind[^\]]*\]$', re.S)
 _ASSERT = re.compile(r'^assert\((!?)(.*?), "((?:[^"\\]|\\.)*)"(.*)\) -> \[success: bb(\d+), unwind[^\]]*\]$', re.S)
-_CALL_TAIL = re.compile(r' -> (?:\[return: bb(\d+), unwind[^\]]*\]|unwind [a-z()]+)$')
+_CALL_TAIL = re.compile(r' -> (?:\[return: bb(\d+), unwind[^\]]*\]|unwind [a-z()]+|bb\d+)$')
 
 def parse_stmt(ln):
     if ln == 'return': return ('return',)
@@ -307,7 +307,7 @@ def parse_stmt(ln):
     mt = _CALL_TAIL.search(ln)
     if mt:
         head = ln[:mt.start()]
-        ret_bb = int(mt.group(1)) if mt.group(1) else None
+        ret_bb = int(mt.group(1)) if mt.group(1) else None      # `-> bbN` alone: diverging call, bbN is the unwind target
         # head is "<place> = <callee>(<args>)"
         eq = head.index(' = ')
         # place may itself contain ' = '? no.
